@@ -625,9 +625,14 @@ inductive Event where
   | setGlobals (names : List Str)
   deriving DecidableEq, Repr
 
+/-- is the thread waiting in `waitForContinue`? `running = false` says so, except that
+    VisitStepOutState marks a thread whose error is ALREADY recorded as not running without
+    waiting (debug.go: `is.running = false` … `if is.err == nil { …wait… }`): such a thread runs
+    on and RecordThreadFinished removes it. So a not-running thread with an error recorded may
+    move; every other not-running thread is parked. -/
 def isSuspended (s : DbgState) (tid : Nat) : Bool :=
   match s.istates.lookup tid with
-  | some is => !is.running
+  | some is => !is.running && !is.hasErr
   | none => false
 
 def frames (depth : Nat) : List Frame := List.replicate depth { nonNil := true, hasToken := true }
